@@ -785,6 +785,83 @@ def confirm_shrunk(ctx: Ctx):
                  and any(x[0] == f and x[1] == v.sig.get("effect") for x in diff_fields(o["orig"], o["back"])))
         if not still:
             v.case = v._full
+    shrink_trees(ctx)
+
+
+def _tree_candidates(tree):
+    """smaller trees: one group removed (only a group without descendants in the spec), the root removed, one
+    variable / coordinate removed, the attributes of one group / variable removed."""
+    out = []
+    paths = [g["path"] for g in tree["groups"]]
+    for i, g in enumerate(tree["groups"]):
+        if not any(q != g["path"] and q.startswith(g["path"] + "/") for q in paths):
+            out.append(dict(tree, groups=tree["groups"][:i] + tree["groups"][i + 1:]))
+    if tree.get("root"):
+        out.append(dict(tree, root=None))
+    gs = [("root", None)] if tree.get("root") else []
+    gs += [("groups", i) for i in range(len(tree["groups"]))]
+    for where, i in gs:
+        g = tree["root"] if where == "root" else tree["groups"][i]
+
+        def put(ng, where=where, i=i):
+            if where == "root":
+                return dict(tree, root=ng)
+            return dict(tree, groups=tree["groups"][:i] + [ng] + tree["groups"][i + 1:])
+        for kind in ("vars", "coords"):
+            for j in range(len(g[kind])):
+                out.append(put(dict(g, **{kind: g[kind][:j] + g[kind][j + 1:]})))
+                if g[kind][j].get("attrs"):
+                    out.append(put(dict(g, **{kind: g[kind][:j] + [dict(g[kind][j], attrs={})] + g[kind][j + 1:]})))
+        if len(g.get("attrs") or {}) > 0 and (g["vars"] or g["coords"] or len(g["attrs"]) > 1):
+            keys = list(g["attrs"])
+            out.append(put(dict(g, attrs={k: g["attrs"][k] for k in keys[1:]})))
+    return out
+
+
+def shrink_trees(ctx: Ctx, rounds=6, width=24):
+    """Greedy minimisation of the tree of a NEW violation (not a known finding): keep removing groups, variables,
+    coordinates and attributes while the implementation still fails in the same way (same field, effect, aspect).
+    A candidate that can no longer be built (a child that needs the coordinate of a removed parent) is skipped.
+    All violations are shrunk together: one driver batch per round."""
+    fs = core.load_findings(ctx.prop)
+    active, done = [], set()
+    for v in ctx.violations:
+        f = v.sig.get("field")
+        if v.clause != "roundtrip" or f not in ("data", "scene") or any(core.finding_matches(e, v) for e in fs):
+            continue
+        key = json.dumps(v.sig, sort_keys=True)
+        if key in done or len(done) >= 5:
+            continue
+        done.add(key)
+        active.append([v, v.case])
+    for _ in range(rounds):
+        batch = []      # (index into active, candidate case)
+        for i, (v, case) in enumerate(active):
+            f = v.sig["field"]
+            tree = ((case["spec"].get("init") or {}).get(f) or {}).get("tree")
+            for t in (_tree_candidates(tree)[:width] if tree else []):
+                c = json.loads(json.dumps(case))
+                c["spec"]["init"][f]["tree"] = t
+                batch.append((i, c))
+        if not batch:
+            break
+        obs = core.run_driver(ctx, "c18", [c for _, c in batch], workers=4, timeout=300)
+        moved = set()
+        for (i, c), o in zip(batch, obs):
+            v = active[i][0]
+            if i in moved or "back" not in o or "raise" in o["back"]:
+                continue
+            if any(x[0] == v.sig["field"] and x[1] == v.sig.get("effect") and x[2] == v.sig.get("aspect")
+                   for x in diff_fields(o["orig"], o["back"])):
+                active[i][1] = c
+                moved.add(i)
+        if not moved:
+            break
+    for v, case in active:
+        if case is not v.case:
+            if not hasattr(v, "_full"):
+                v._full = v.case
+            v.case = case
 
 
 def run(ctx: Ctx):
